@@ -22,7 +22,7 @@ type Prop struct{}
 func (Prop) ID() string    { return "C06" }
 func (Prop) Level() string { return "exploration" }
 func (Prop) Rule() string {
-	return "a change set S (DAG with snapshots) is produced by honest authors in a simulated lossy network of real sync trees and converged; then K fresh receivers (6 quick / 12 thorough) each get S as a random permutation split into random batches (with the full sender's heads and snapshot path, or the heads of what was offered so far), with duplicated batches, the full set re-offered until held; after every addition the presented sequence (IterateRoot), AddResult.Mode and the stored sequence are checked, and at the end incremental, reopened, history (full and at a random earlier change) and the simulator replicas' own orders are compared. Non-trivial = S has a fork (>=2 heads at some point or >=1 merge) and >= 5 changes; distinct = hash(S ids, arrival order)."
+	return "a change set S (DAG with snapshots) is produced by honest authors in a simulated lossy network of real sync trees and converged; then K fresh receivers (6 quick / 12 thorough) each get S as a random permutation split into random batches (with the full sender's heads and snapshot path, or the heads of what was offered so far), with duplicated batches, the full set re-offered until held; after every addition the presented sequence (IterateRoot), AddResult.Mode and the stored sequence are checked, and at the end incremental, reopened, history (full and at a random earlier change) and the simulator replicas' own orders are compared. Second workload small-dags: every honest two-author history of <= 3 (quick) / 4 (thorough) steps, each step (author, plain|snapshot, synced-before or not), enumerated exhaustively, 3 receivers each. Non-trivial = S has a fork (>=2 heads at some point or >=1 merge) and >= 5 changes; distinct = hash(S ids, arrival order)."
 }
 func (Prop) Assumptions() []string {
 	return []string{"every change's snapshot base is what an honest builder chose (changes come from real AddContent calls)", "ACL fixed"}
@@ -33,12 +33,98 @@ func (Prop) Plan(tier string) []lib.Workload {
 	if tier == "thorough" {
 		n = 8000
 	}
-	return []lib.Workload{{Name: "changesets", Cases: n, MinNontrivial: n / 2}}
+	return []lib.Workload{
+		{Name: "changesets", Cases: n, MinNontrivial: n / 2},
+		{Name: "small-dags", Cases: smallDagCases(tier), MinNontrivial: 50, Exhaustive: true},
+	}
+}
+
+// small-dags: every honest two-author history of up to L changes, each step being
+// (author, plain|snapshot, sync-before-or-not), enumerated exhaustively (L = 3 quick, 4 thorough).
+func smallDagLen(tier string) int {
+	if tier == "thorough" {
+		return 4
+	}
+	return 3
+}
+
+func smallDagCases(tier string) int {
+	n, p := 0, 1
+	for l := 1; l <= smallDagLen(tier); l++ {
+		p *= 8
+		n += p
+	}
+	return n
+}
+
+func decodeSmallDag(idx int) []int {
+	l, p := 1, 8
+	for idx >= p {
+		idx -= p
+		p *= 8
+		l++
+	}
+	seq := make([]int, l)
+	for i := range seq {
+		seq[i] = idx % 8
+		idx /= 8
+	}
+	return seq
+}
+
+func runSmallDag(c *lib.Case) {
+	seq := decodeSmallDag(c.Index)
+	s, err := netsim.New(netsim.Config{Dir: c.TmpDir, Replicas: 2, Rng: c.Rng, Encrypted: false})
+	if err != nil {
+		c.Inconclusive("setup: " + err.Error())
+		return
+	}
+	defer s.Close()
+	drain := func() {
+		for n := 0; len(s.InFlight) > 0 && n < 10000; n++ {
+			s.Deliver(0, -1, false)
+		}
+	}
+	var desc []string
+	for _, e := range seq {
+		author, snap, sync := e&1, e&2 != 0, e&4 != 0
+		if sync {
+			drain()
+		}
+		if _, err := s.LocalAdd(author, snap, 4); err != nil {
+			c.Violation("small-dag:local-add-failed", "local AddContent failed in an honest two-author history", map[string]any{"history": seq, "err": err.Error()})
+			return
+		}
+		desc = append(desc, fmt.Sprintf("%s%d%s", map[bool]string{true: "sync;", false: ""}[sync], author, map[bool]string{true: "S", false: ""}[snap]))
+	}
+	drain()
+	for _, pr := range [][2]int{{0, 1}, {1, 0}} {
+		if err := s.SyncWithPeer(pr[0], pr[1]); err != nil {
+			c.Inconclusive("sync: " + err.Error())
+			return
+		}
+		drain()
+	}
+	a, _ := s.Replicas[0].StoredIds()
+	b, _ := s.Replicas[1].StoredIds()
+	if !eq(a, b) || len(a) != len(seq)+1 {
+		c.Violation("small-dag:not-converged", "two honest replicas did not converge after a drained two-way exchange", map[string]any{"history": desc, "a": len(a), "b": len(b)})
+		return
+	}
+	c.Count("small_dags", 1)
+	if c.Index%97 == 0 {
+		c.Sample("small-dag", map[string]any{"history": desc})
+	}
+	checkSetK(c, s, 3, strings.Join(desc, ","))
 }
 
 var bg = context.Background()
 
 func (Prop) RunCase(c *lib.Case) {
+	if c.Workload == "small-dags" {
+		runSmallDag(c)
+		return
+	}
 	hook := &c01.Hook{AtEnd: func(s *netsim.Sim) { checkSet(c, s) }}
 	c01.RunScheduleOpts(c, hook, c01.Opts{Quiet: true})
 }
@@ -72,6 +158,14 @@ func setOf(ids []string) map[string]bool {
 func eq(a, b []string) bool { return strings.Join(a, ",") == strings.Join(b, ",") }
 
 func checkSet(c *lib.Case, s *netsim.Sim) {
+	K := 6
+	if !c.Quick() {
+		K = 12
+	}
+	checkSetK(c, s, K, "")
+}
+
+func checkSetK(c *lib.Case, s *netsim.Sim, K int, label string) {
 	ref := s.Replicas[0]
 	S, err := ref.Stored()
 	if err != nil {
@@ -128,10 +222,6 @@ func checkSet(c *lib.Case, s *netsim.Sim) {
 	checkViews(c, s, ref, refSeq, byId, "network-replica", det)
 
 	// 2. fresh receivers
-	K := 6
-	if !c.Quick() {
-		K = 12
-	}
 	arrivalSig := fnv.New64a()
 	for k := 0; k < K; k++ {
 		recv, err := s.NewDetached(filepath.Join(c.TmpDir, fmt.Sprintf("recv-%d", k)), c.Rng.Intn(len(s.Replicas)))
@@ -142,7 +232,11 @@ func checkSet(c *lib.Case, s *netsim.Sim) {
 		runReceiver(c, s, recv, S, refSeq, byId, H, P, k, arrivalSig, det)
 		recv.CloseDetached()
 	}
-	if (forks > 0 || merges > 0) && len(S) >= 5 {
+	if label != "" {
+		if len(S) >= 3 {
+			c.Nontrivial(label)
+		}
+	} else if (forks > 0 || merges > 0) && len(S) >= 5 {
 		c.Nontrivial(fmt.Sprintf("%x/%x", hashIds(refSeq), arrivalSig.Sum64()))
 	}
 	if c.Index < 30 {
